@@ -864,3 +864,391 @@ Proof.
   exact (conj (conj A1 (conj A2 A3)) (conj (conj B1 B2) (conj (conj C1 (conj C2 C3)) (conj (conj D1 (conj D2 D3))
          (conj (conj E1 (conj E2 E3)) (conj (conj F1 (conj F2 (F3 K2))) (c10_unique _ _ _ _ Hr Hb K1 K3))))))).
 Qed.
+
+(* ======================== the order of the calls does not matter ======================== *)
+Section FinalPerm.
+  Context {O K V : Type} (keqb : K -> K -> bool) (okey : O -> K) (oval : O -> V) (accept : O -> bool).
+  Hypothesis keqb_spec : forall x y, keqb x y = true <-> x = y.
+
+  Lemma keqb_neq x y : x <> y -> keqb x y = false.
+  Proof. intros H. destruct (keqb x y) eqn:E; [apply keqb_spec in E; contradiction | reflexivity]. Qed.
+
+  (* when every item is mentioned by one call only, the map is: item -> value of its (accepted) call *)
+  Lemma final_last_distinct ops : NoDup (map okey ops) -> forall k v,
+    final_last keqb okey oval accept ops k = Some v <-> exists o, In o ops /\ accept o = true /\ okey o = k /\ oval o = v.
+  Proof.
+    intros ND k v. split; [apply final_last_origin; intros x y E; apply keqb_spec, E|].
+    revert k v. induction ops as [|o ops IH] using rev_ind; intros k v (o' & Hin & A & Ek & Ev); [contradiction|].
+    rewrite map_app in ND. cbn [map] in ND. apply NoDup_remove in ND as [ND Hnot]. rewrite app_nil_r in ND, Hnot.
+    rewrite final_last_snoc. apply in_app_iff in Hin as [Hin|[<-|[]]].
+    - assert (Hne : okey o <> k) by (intros E; apply Hnot; rewrite E, <- Ek; apply in_map, Hin).
+      assert (F : final_last keqb okey oval accept ops k = Some v) by (apply (IH ND); exists o'; auto).
+      destruct (accept o); [unfold upd; rewrite (keqb_neq _ _ Hne)|]; exact F.
+    - rewrite A. unfold upd. subst. rewrite (proj2 (keqb_spec _ _) eq_refl). reflexivity.
+  Qed.
+
+  Lemma final_first_distinct ops : NoDup (map okey ops) -> forall k v,
+    final_first keqb okey oval accept ops k = Some v <-> exists o, In o ops /\ accept o = true /\ okey o = k /\ oval o = v.
+  Proof.
+    intros ND k v. split; [apply final_first_origin; intros x y E; apply keqb_spec, E|].
+    revert k v. induction ops as [|o ops IH] using rev_ind; intros k v (o' & Hin & A & Ek & Ev); [contradiction|].
+    rewrite map_app in ND. cbn [map] in ND. apply NoDup_remove in ND as [ND Hnot]. rewrite app_nil_r in ND, Hnot.
+    rewrite final_first_snoc.
+    assert (Hnone : final_first keqb okey oval accept ops (okey o) = None).
+    { destruct (final_first keqb okey oval accept ops (okey o)) eqn:F; [|reflexivity]. exfalso.
+      apply final_first_origin in F; [|intros x y E; apply keqb_spec, E]. destruct F as (o2 & Hin2 & _ & E2 & _).
+      apply Hnot. rewrite <- E2. apply in_map, Hin2. }
+    apply in_app_iff in Hin as [Hin|[<-|[]]].
+    - assert (Hne : okey o <> k) by (intros E; apply Hnot; rewrite E, <- Ek; apply in_map, Hin).
+      assert (F : final_first keqb okey oval accept ops k = Some v) by (apply (IH ND); exists o'; auto).
+      destruct (accept o); [rewrite Hnone; unfold upd; rewrite (keqb_neq _ _ Hne)|]; exact F.
+    - rewrite A, Hnone. unfold upd. subst. rewrite (proj2 (keqb_spec _ _) eq_refl). reflexivity.
+  Qed.
+
+  Lemma final_last_perm ops ops' : NoDup (map okey ops) -> Permutation ops ops' ->
+    forall k, final_last keqb okey oval accept ops k = final_last keqb okey oval accept ops' k.
+  Proof.
+    intros ND P k.
+    assert (ND' : NoDup (map okey ops')) by (eapply Permutation_NoDup; [apply Permutation_map, P | exact ND]).
+    assert (X : forall v, final_last keqb okey oval accept ops k = Some v <-> final_last keqb okey oval accept ops' k = Some v).
+    { intros v. rewrite (final_last_distinct ops ND), (final_last_distinct ops' ND').
+      split; intros (o & Hin & R); exists o; (split; [|exact R]); [eapply Permutation_in; [exact P | exact Hin] | eapply Permutation_in; [symmetry; exact P | exact Hin]]. }
+    destruct (final_last keqb okey oval accept ops k) as [v|] eqn:E1.
+    - symmetry. apply X. reflexivity.
+    - destruct (final_last keqb okey oval accept ops' k) as [v'|] eqn:E2; [|reflexivity].
+      pose proof (proj2 (X v') eq_refl). discriminate.
+  Qed.
+
+  Lemma final_first_perm ops ops' : NoDup (map okey ops) -> Permutation ops ops' ->
+    forall k, final_first keqb okey oval accept ops k = final_first keqb okey oval accept ops' k.
+  Proof.
+    intros ND P k.
+    assert (ND' : NoDup (map okey ops')) by (eapply Permutation_NoDup; [apply Permutation_map, P | exact ND]).
+    assert (X : forall v, final_first keqb okey oval accept ops k = Some v <-> final_first keqb okey oval accept ops' k = Some v).
+    { intros v. rewrite (final_first_distinct ops ND), (final_first_distinct ops' ND').
+      split; intros (o & Hin & R); exists o; (split; [|exact R]); [eapply Permutation_in; [exact P | exact Hin] | eapply Permutation_in; [symmetry; exact P | exact Hin]]. }
+    destruct (final_first keqb okey oval accept ops k) as [v|] eqn:E1.
+    - symmetry. apply X. reflexivity.
+    - destruct (final_first keqb okey oval accept ops' k) as [v'|] eqn:E2; [|reflexivity].
+      pose proof (proj2 (X v') eq_refl). discriminate.
+  Qed.
+End FinalPerm.
+
+(* every item is named by one call only *)
+Definition distinct_items (ops : list op) : Prop :=
+  NoDup (map in_op_key (ops_in ops)) /\ NoDup (map mo_policy (ops_mint ops)) /\ NoDup (map wop_key (ops_cert ops)) /\
+  NoDup (map wop_key (ops_wd ops)) /\ NoDup (map wop_key (ops_vote ops)) /\ NoDup (map wop_key (ops_prop ops)).
+
+Lemma pointers_transfer {K} T (final final' : K -> option (option wit)) ix ix' R R' :
+  spec_pointers T final ix R -> spec_pointers T final' ix' R' ->
+  (forall k, final k = final' k) -> (forall k, ix k = ix' k) ->
+  forall r, r_tag r = T -> (In r R <-> In r R').
+Proof.
+  intros P P' Ef Ei r Ht. rewrite (P r Ht), (P' r Ht).
+  split; intros (k & rid & F & I & D); exists k, rid; repeat split; try assumption; congruence.
+Qed.
+
+Lemma set_index_same {K} (ltb : K -> K -> bool) (ST : strict_total ltb) (final final' : K -> option (option wit)) field field' :
+  spec_field final field -> spec_field final' field' -> (forall k, final k = final' k) ->
+  forall k, ledger_set_index ltb k field = ledger_set_index ltb k field'.
+Proof.
+  intros F F' E k. unfold ledger_set_index. f_equal. apply (sset_sort_same_set ltb ST).
+  intros x. rewrite (F x), (F' x), E. tauto.
+Qed.
+
+(* For pairwise distinct items, every insertion order gives the same redeemers for the purposes whose
+   index is a rank in a sorted set (spend, mint, reward, vote) and for proposals; a certificate
+   redeemer follows its certificate's position in the sequence (c10_cert says it designates it). *)
+Theorem c10_order_irrelevant ops ops' st flags b st' flags' b' :
+  Permutation ops ops' -> distinct_items ops ->
+  run ops = (st, flags) -> tx_build st = Ok b -> run ops' = (st', flags') -> tx_build st' = Ok b' ->
+  known_collateral_plutus ops = false -> known_stale_spend ops = false ->
+  known_collateral_plutus ops' = false -> known_stale_spend ops' = false ->
+  forall r, r_tag r <> TCert -> (In r (b_redeemers b) <-> In r (b_redeemers b')).
+Proof.
+  intros P (Di & Dm & _ & Dw & Dv & Dp) Hr Hb Hr' Hb' K1 K3 K1' K3' r Hnc.
+  assert (Pin : Permutation (ops_in ops) (ops_in ops')) by (apply Permutation_flat_map, P).
+  assert (Pm : Permutation (ops_mint ops) (ops_mint ops')) by (apply Permutation_flat_map, P).
+  assert (Pw : Permutation (ops_wd ops) (ops_wd ops')) by (apply Permutation_flat_map, P).
+  assert (Pv : Permutation (ops_vote ops) (ops_vote ops')) by (apply Permutation_flat_map, P).
+  assert (Pp : Permutation (ops_prop ops) (ops_prop ops')) by (apply Permutation_flat_map, P).
+  destruct (r_tag r) eqn:Ht; [| | congruence | | |].
+  - destruct (c10_spend _ _ _ _ Hr Hb K1 K3) as (F1 & P1 & _). destruct (c10_spend _ _ _ _ Hr' Hb' K1' K3') as (F2 & P2 & _).
+    assert (E : forall k, spend_wits (spend_final (ops_in ops)) k = spend_wits (spend_final (ops_in ops')) k).
+    { intros k. unfold spend_wits, spend_final. rewrite (final_last_perm _ _ _ _ (eqb_of_true _ outpoint_st) _ _ Di Pin). reflexivity. }
+    apply (pointers_transfer TSpend _ _ _ _ _ _ P1 P2 E); [|exact Ht].
+    apply (set_index_same outpoint_ledger_ltb (eq_ind _ _ outpoint_st _ outpoint_code_ledger) _ _ _ _ F1 F2 E).
+  - destruct (c10_mint _ _ _ _ Hr Hb) as (F1 & P1). destruct (c10_mint _ _ _ _ Hr' Hb') as (F2 & P2).
+    assert (E : forall k, mint_wits (mint_final (ops_mint ops)) k = mint_wits (mint_final (ops_mint ops')) k).
+    { intros k. unfold mint_wits, mint_final. rewrite (final_first_perm _ _ _ _ (eqb_of_true _ bytes_strict_total) _ _ Dm Pm). reflexivity. }
+    apply (pointers_transfer TMint _ _ _ _ _ _ P1 P2 E); [|exact Ht].
+    apply (set_index_same policy_ledger_ltb bytes_strict_total _ _ _ _ F1 F2 E).
+  - destruct (c10_reward _ _ _ _ Hr Hb) as (F1 & P1 & _). destruct (c10_reward _ _ _ _ Hr' Hb') as (F2 & P2 & _).
+    assert (E : forall k, wd_final (ops_wd ops) k = wd_final (ops_wd ops') k).
+    { intros k. unfold wd_final. apply (final_last_perm _ _ _ _ (eqb_of_true _ racct_ledger_st) _ _ Dw Pw). }
+    apply (pointers_transfer TReward _ _ _ _ _ _ P1 P2 E); [|exact Ht].
+    apply (set_index_same racct_ledger_ltb racct_ledger_st _ _ _ _ F1 F2 E).
+  - destruct (c10_vote _ _ _ _ Hr Hb) as (F1 & P1 & _). destruct (c10_vote _ _ _ _ Hr' Hb') as (F2 & P2 & _).
+    assert (E : forall k, vote_final (ops_vote ops) k = vote_final (ops_vote ops') k).
+    { intros k. unfold vote_final. apply (final_first_perm _ _ _ _ (eqb_of_true _ voter_ledger_st) _ _ Dv Pv). }
+    apply (pointers_transfer TVote _ _ _ _ _ _ P1 P2 E); [|exact Ht].
+    apply (set_index_same voter_ledger_ltb voter_ledger_st _ _ _ _ F1 F2 E).
+  - destruct (c10_propose _ _ _ _ Hr Hb) as (F1 & P1 & _). destruct (c10_propose _ _ _ _ Hr' Hb') as (F2 & P2 & _).
+    assert (E : forall k, prop_final (ops_prop ops) k = prop_final (ops_prop ops') k).
+    { intros k. unfold prop_final. apply (final_last_perm _ _ _ _ (eqb_of_true _ prop_st) _ _ Dp Pp). }
+    apply (pointers_transfer TPropose _ _ _ _ _ _ P1 P2 E); [|exact Ht].
+    (* both proposal sequences are sorted by the same order and list the same proposals: they are equal *)
+    assert (Eb : b_proposals b = b_proposals b').
+    { destruct (run_components _ _ _ Hr) as (_ & _ & _ & _ & _ & _ & C). destruct (run_components _ _ _ Hr') as (_ & _ & _ & _ & _ & _ & C').
+      destruct (build_fields _ _ Hb) as (_ & _ & _ & _ & _ & _ & B & _). destruct (build_fields _ _ Hb') as (_ & _ & _ & _ & _ & _ & B' & _).
+      apply (sorted_unique prop_rust_ltb prop_st).
+      - rewrite B, C. apply prop_refine.
+      - rewrite B', C'. apply prop_refine.
+      - intros x. rewrite (F1 x), (F2 x), E. tauto. }
+    intros k. rewrite Eb. reflexivity.
+Qed.
+
+(* ======================== refutations: the statements are false inside the known classes ======================== *)
+Definition w_o1 : outpoint := ([1], 0).
+Definition w_oc : outpoint := ([204], 0).
+Definition w_of : outpoint := ([240], 7).
+(* a Plutus-witnessed collateral input *)
+Definition w_collateral_ops : list op := [OpIn (InPlutus [10] w_o1 1); OpCol (InPlutus [11] w_oc 2)].
+(* the same input under two script hashes *)
+Definition w_stale_ops : list op := [OpCol (InKey w_oc); OpIn (InKey w_of); OpIn (InPlutus [10] w_o1 1); OpIn (InPlutus [11] w_o1 2)].
+(* an info-action proposal (no policy hash) given a Plutus witness *)
+Definition w_prop_ops : list op := [OpCol (InKey w_oc); OpIn (InKey w_of); OpProp (WAddPlutus (mkProp 6 None 5) 7)].
+
+Theorem unique_refuted_collateral :
+  known_collateral_plutus w_collateral_ops = true /\ known_stale_spend w_collateral_ops = false /\
+  exists st flags b, run w_collateral_ops = (st, flags) /\ tx_build st = Ok b /\ ~ spec_unique (b_redeemers b).
+Proof.
+  split; [vm_compute; reflexivity|]. split; [vm_compute; reflexivity|].
+  eexists. eexists. eexists. split; [vm_compute; reflexivity|]. split; [vm_compute; reflexivity|].
+  intros U. specialize (U (mkR TSpend 0 1) (mkR TSpend 0 2)). cbn in U.
+  assert (X : mkR TSpend 0 1 = mkR TSpend 0 2) by (apply U; auto). discriminate.
+Qed.
+
+Theorem unique_refuted_stale :
+  known_stale_spend w_stale_ops = true /\ known_collateral_plutus w_stale_ops = false /\
+  exists st flags b, run w_stale_ops = (st, flags) /\ tx_build st = Ok b /\ ~ spec_unique (b_redeemers b).
+Proof.
+  split; [vm_compute; reflexivity|]. split; [vm_compute; reflexivity|].
+  eexists. eexists. eexists. split; [vm_compute; reflexivity|]. split; [vm_compute; reflexivity|].
+  intros U. specialize (U (mkR TSpend 0 1) (mkR TSpend 0 2)). cbn in U.
+  assert (X : mkR TSpend 0 1 = mkR TSpend 0 2) by (apply U; auto). discriminate.
+Qed.
+
+Theorem locked_refuted_proposal :
+  known_prop_nonscript w_prop_ops = true /\
+  exists st flags b, run w_prop_ops = (st, flags) /\ tx_build st = Ok b /\ b_redeemers b = [mkR TPropose 0 7] /\
+    ~ spec_locked (prop_final (ops_prop w_prop_ops)) prop_has_script_hash.
+Proof.
+  split; [vm_compute; reflexivity|].
+  eexists. eexists. eexists. split; [vm_compute; reflexivity|]. split; [vm_compute; reflexivity|]. split; [reflexivity|].
+  intros L. specialize (L (mkProp 6 None 5) 7). assert (X : prop_has_script_hash (mkProp 6 None 5) = true) by (apply L; vm_compute; reflexivity).
+  discriminate.
+Qed.
+
+(* ---- the two repaired defects: the code before the repair violates the statement ---- *)
+Definition w_a9 : racct := mkRacct 0 (mkCred true [9]).
+Definition w_a2 : racct := mkRacct 0 (mkCred true [2]).
+Definition w_reward_ops : list (wop racct) := [WAddPlutus w_a9 9; WAddPlutus w_a2 2].
+
+Theorem reward_legacy_refuted :
+  let st := fold_left wd_apply w_reward_ops [] in
+  ~ spec_pointers TReward (wd_final w_reward_ops) (fun k => ledger_set_index racct_ledger_ltb k (wd_body_legacy st)) (wd_plutus_legacy st).
+Proof.
+  cbv zeta. intros P. destruct (proj1 (P (mkR TReward 0 9) eq_refl)) as (k & rid & F & I & D); [vm_compute; auto|].
+  cbn [r_index r_data] in *. subst rid. unfold ledger_set_index in I.
+  assert (Hs : sset_sort racct_ledger_ltb (wd_body_legacy (fold_left wd_apply w_reward_ops [])) = [w_a2; w_a9]) by (vm_compute; reflexivity).
+  rewrite Hs in I. cbn [index_of] in I.
+  destruct (eqb_of racct_ledger_ltb w_a2 k) eqn:E.
+  - apply (eqb_of_true _ racct_ledger_st) in E. subst k. vm_compute in F. discriminate.
+  - destruct (eqb_of racct_ledger_ltb w_a9 k); cbn in I; discriminate.
+Qed.
+
+Definition w_vk : voter := VDRep (mkCred false [5]).
+Definition w_vs : voter := VDRep (mkCred true [2]).
+Definition w_vote_ops : list (wop voter) := [WAdd w_vk; WAddPlutus w_vs 2].
+
+Theorem vote_legacy_refuted :
+  let st := fold_left vote_apply w_vote_ops [] in
+  ~ spec_pointers TVote (vote_final w_vote_ops) (fun k => ledger_set_index voter_ledger_ltb k (vote_body st)) (vote_plutus_legacy st).
+Proof.
+  cbv zeta. intros P. destruct (proj1 (P (mkR TVote 1 2) eq_refl)) as (k & rid & F & I & D); [vm_compute; auto|].
+  cbn [r_index r_data] in *. subst rid. unfold ledger_set_index in I.
+  assert (Hs : sset_sort voter_ledger_ltb (vote_body (fold_left vote_apply w_vote_ops [])) = [w_vs; w_vk]) by (vm_compute; reflexivity).
+  rewrite Hs in I. cbn [index_of] in I.
+  destruct (eqb_of voter_ledger_ltb w_vs k) eqn:E; [discriminate|].
+  destruct (eqb_of voter_ledger_ltb w_vk k) eqn:E2; cbn in I; [|discriminate].
+  apply (eqb_of_true _ voter_ledger_st) in E2. subst k. vm_compute in F. discriminate.
+Qed.
+
+(* with the repairs the same call sequences are fine (instances of wd_pointers / vote_pointers), and the
+   redeemers are the expected ones *)
+Example reward_repaired_witness :
+  wd_plutus (fold_left wd_apply w_reward_ops []) = [mkR TReward 0 2; mkR TReward 1 9] /\
+  wd_body (fold_left wd_apply w_reward_ops []) = [w_a2; w_a9].
+Proof. split; vm_compute; reflexivity. Qed.
+Example vote_repaired_witness :
+  vote_plutus (fold_left vote_apply w_vote_ops []) = [mkR TVote 0 2] /\
+  vote_body (fold_left vote_apply w_vote_ops []) = [w_vk; w_vs].
+Proof. split; vm_compute; reflexivity. Qed.
+
+(* ---- the premises of the main theorem are satisfiable on a transaction that uses every purpose ---- *)
+Definition ex_ops : list op :=
+  [ OpIn (InPlutus [7] ([3], 1) 101); OpCol (InKey w_oc); OpIn (InKey w_of); OpIn (InNative [8] ([3], 0)); OpIn (InPlutus [7] ([2], 9) 102);
+    OpMint (mkMintOp [9] (MPlutus true 103) false); OpMint (mkMintOp [4] (MNative true) false); OpMint (mkMintOp [1] (MPlutus false 104) false);
+    OpCert (WAdd (mkCert 0 true 1)); OpCert (WAddPlutus (mkCert 7 true 1) 105); OpCert (WAdd (mkCert 4 false 2)); OpCert (WAddPlutus (mkCert 17 true 3) 106);
+    OpWd (WAdd (mkRacct 0 (mkCred false [1]))); OpWd (WAddPlutus w_a9 107); OpWd (WAddPlutus w_a2 108);
+    OpVote (WAdd w_vk); OpVote (WAddPlutus w_vs 109); OpVote (WAdd (VSPO [0])); OpVote (WAddPlutus (VCC (mkCred true [9])) 110);
+    OpProp (WAdd (mkProp 6 None 1)); OpProp (WAddPlutus (mkProp 2 (Some [5]) 2) 111); OpProp (WAddPlutus (mkProp 0 (Some [6]) 3) 112) ].
+
+Example c10_premises_satisfiable :
+  known_collateral_plutus ex_ops = false /\ known_stale_spend ex_ops = false /\ known_prop_nonscript ex_ops = false /\
+  exists st flags b, run ex_ops = (st, flags) /\ tx_build st = Ok b /\
+    b_redeemers b = [ mkR TSpend 2 101; mkR TSpend 0 102; mkR TMint 0 104; mkR TMint 2 103; mkR TCert 1 105; mkR TCert 3 106;
+                      mkR TReward 0 108; mkR TReward 1 107; mkR TVote 0 110; mkR TVote 1 109; mkR TPropose 0 112; mkR TPropose 1 111 ].
+Proof.
+  split; [vm_compute; reflexivity|]. split; [vm_compute; reflexivity|]. split; [vm_compute; reflexivity|].
+  eexists. eexists. eexists. split; [vm_compute; reflexivity|]. split; [vm_compute; reflexivity|]. vm_compute. reflexivity.
+Qed.
+
+Example c10_distinct_items_satisfiable : distinct_items ex_ops.
+Proof.
+  unfold distinct_items. cbn.
+  repeat split; repeat (constructor; [cbn; intuition discriminate|]); constructor.
+Qed.
+
+(* ======================== the judge is sound: verdict "holds" implies the statement ======================== *)
+Section JudgeSound.
+  Context {K : Type} (ltb : K -> K -> bool) (ST : strict_total ltb).
+  Variables (T : tag) (keys : list K) (final : K -> option (option wit)) (ix : K -> option N)
+            (field : list K) (locked : K -> bool) (R : list redeemer).
+  Hypothesis support : forall k, final k <> None -> In k keys.
+
+  Lemma existsb_eqb_In k l : existsb (eqb_of ltb k) l = true <-> In k l.
+  Proof.
+    rewrite existsb_exists. split.
+    - intros (x & Hin & E). apply (eqb_of_true _ ST) in E. subst. exact Hin.
+    - intros H. exists k. split; [exact H | apply eqb_of_refl, ST].
+  Qed.
+
+  Lemma j_field_sound : j_field (eqb_of ltb) keys final field = true -> spec_field final field.
+  Proof.
+    unfold j_field. intros H. apply andb_true_iff in H as [H1 H2]. rewrite forallb_forall in H1, H2.
+    intros k. split.
+    - intros Hin. pose proof (H2 _ Hin) as Hk. apply existsb_eqb_In in Hk. specialize (H1 _ Hk).
+      apply (proj2 (existsb_eqb_In k field)) in Hin. rewrite Hin in H1. destruct (final k); [discriminate | discriminate].
+    - intros Hf. specialize (H1 _ (support _ Hf)). destruct (final k); [|congruence]. cbn in H1.
+      apply existsb_eqb_In. destruct (existsb (eqb_of ltb k) field); [reflexivity | discriminate].
+  Qed.
+
+  Lemma attachments_In k rid : In (k, rid) (attachments keys final) <-> In k keys /\ final k = Some (Some (WPlutus rid)).
+  Proof.
+    unfold attachments. rewrite in_flat_map. split.
+    - intros (k' & Hin & H). destruct (final k') as [[[|r]|]|] eqn:F; cbn in H; try contradiction.
+      destruct H as [H|[]]. injection H as <- <-. auto.
+    - intros (Hin & F). exists k. split; [exact Hin|]. rewrite F. cbn. auto.
+  Qed.
+
+  Lemma j_pointers_sound : j_present T keys final ix R = true -> j_expected T keys final ix R = true -> spec_pointers T final ix R.
+  Proof.
+    unfold j_present, j_expected. intros Hp He. rewrite forallb_forall in Hp, He. intros r Ht. split.
+    - intros Hin. specialize (He _ Hin). rewrite Ht, N.eqb_refl in He. cbn [negb orb] in He.
+      apply existsb_exists in He as ([k rid] & Ha & E). cbn [fst snd] in E. apply attachments_In in Ha as [_ F].
+      destruct (ix k) as [i|] eqn:Ei; [|discriminate]. apply andb_true_iff in E as [E1 E2]. apply N.eqb_eq in E1, E2. subst.
+      exists k, (r_data r). auto.
+    - intros (k & rid & F & Ei & D). subst rid.
+      assert (Ha : In (k, r_data r) (attachments keys final)) by (apply attachments_In; split; [apply support; congruence | exact F]).
+      specialize (Hp _ Ha). cbn [fst snd] in Hp. rewrite Ei in Hp. apply existsb_exists in Hp as (x & Hin & E).
+      apply red_eqb_true in E. subst x. rewrite (redeemer_eta r), Ht. exact Hin.
+  Qed.
+
+  Lemma j_locked_sound : j_locked keys final locked = true -> spec_locked final locked.
+  Proof.
+    unfold j_locked. intros H. rewrite forallb_forall in H. intros k rid F.
+    apply (H (k, rid)). apply attachments_In. split; [apply support; congruence | exact F].
+  Qed.
+End JudgeSound.
+
+Lemma ptr_eqb_true a b : ptr_eqb a b = true <-> r_tag a = r_tag b /\ r_index a = r_index b.
+Proof.
+  unfold ptr_eqb. rewrite andb_true_iff, !N.eqb_eq. split; intros [H1 H2]; split; try assumption; [apply tag_code_inj, H1 | rewrite H1; reflexivity].
+Qed.
+Lemma j_unique_sound R : j_unique R = true ->
+  forall r1 r2, In r1 R -> In r2 R -> r_tag r1 = r_tag r2 -> r_index r1 = r_index r2 -> r1 = r2.
+Proof.
+  induction R as [|a t IH]; cbn [j_unique]; [intros _ ? ? []|]. intros H. apply andb_true_iff in H as [Hn Ht].
+  apply negb_true_iff in Hn. intros r1 r2 H1 H2 Et Ei.
+  assert (X : forall r, In r t -> r_tag a = r_tag r -> r_index a = r_index r -> False).
+  { intros r Hr E1 E2. assert (Y : existsb (ptr_eqb a) t = true); [|congruence].
+    apply existsb_exists. exists r. split; [exact Hr | apply ptr_eqb_true; auto]. }
+  destruct H1 as [<-|H1], H2 as [<-|H2]; [reflexivity | exfalso; eapply X; eassumption | exfalso; eapply X; eauto | apply IH; assumption].
+Qed.
+
+Lemma final_last_support {O K V} (keqb : K -> K -> bool) (okey : O -> K) (oval : O -> V) accept ops :
+  (forall x y, keqb x y = true -> x = y) -> forall k, final_last keqb okey oval accept ops k <> None -> In k (map okey ops).
+Proof.
+  intros Hk k H. destruct (final_last keqb okey oval accept ops k) eqn:F; [|congruence].
+  apply final_last_origin in F; [|exact Hk]. destruct F as (o & Hin & _ & <- & _). apply in_map, Hin.
+Qed.
+Lemma final_first_support {O K V} (keqb : K -> K -> bool) (okey : O -> K) (oval : O -> V) accept ops :
+  (forall x y, keqb x y = true -> x = y) -> forall k, final_first keqb okey oval accept ops k <> None -> In k (map okey ops).
+Proof.
+  intros Hk k H. destruct (final_first keqb okey oval accept ops k) eqn:F; [|congruence].
+  apply final_first_origin in F; [|exact Hk]. destruct F as (o & Hin & _ & <- & _). apply in_map, Hin.
+Qed.
+
+Theorem judge_sound ops b : judge ops b = Holds -> C10_statement ops b.
+Proof.
+  unfold judge, verdict_of. cbv zeta.
+  match goal with |- (if ?c then _ else _) = _ -> _ => destruct c eqn:Hc end.
+  2:{ repeat match goal with |- (if ?c then _ else _) = _ -> _ => destruct c end; discriminate. }
+  intros _.
+  repeat match goal with H : _ && _ = true |- _ => apply andb_true_iff in H; destruct H end.
+  assert (Ss : forall k, spend_wits (spend_final (ops_in ops)) k <> None -> In k (map in_op_key (ops_in ops))).
+  { intros k Hk. apply (final_last_support (eqb_of outpoint_ltb) in_op_key in_op_val (fun _ => true)); [intros x y E; apply (eqb_of_true _ outpoint_st), E|].
+    unfold spend_wits, spend_final in Hk. intros E. rewrite E in Hk. apply Hk. reflexivity. }
+  assert (Sm : forall k, mint_wits (mint_final (ops_mint ops)) k <> None -> In k (map mo_policy (ops_mint ops))).
+  { intros k Hk. apply (final_first_support (eqb_of bytes_ltb) mo_policy mo_wit (fun o => negb (mo_zero o))); [intros x y E; apply (eqb_of_true _ bytes_strict_total), E|].
+    unfold mint_wits, mint_final in Hk. intros E. rewrite E in Hk. apply Hk. reflexivity. }
+  assert (Sc : forall k, cert_final (ops_cert ops) k <> None -> In k (map wop_key (ops_cert ops))).
+  { apply final_first_support. intros x y E; apply (eqb_of_true _ cert_st), E. }
+  assert (Sw : forall k, wd_final (ops_wd ops) k <> None -> In k (map wop_key (ops_wd ops))).
+  { apply final_last_support. intros x y E; apply (eqb_of_true _ racct_ledger_st), E. }
+  assert (Sv : forall k, vote_final (ops_vote ops) k <> None -> In k (map wop_key (ops_vote ops))).
+  { apply final_first_support. intros x y E; apply (eqb_of_true _ voter_ledger_st), E. }
+  assert (Sp : forall k, prop_final (ops_prop ops) k <> None -> In k (map wop_key (ops_prop ops))).
+  { apply final_last_support. intros x y E; apply (eqb_of_true _ prop_st), E. }
+  unfold C10_statement. cbv zeta.
+  repeat match goal with |- _ /\ _ => split end;
+    try (eapply (j_field_sound _ outpoint_st); eassumption);
+    try (eapply (j_field_sound _ bytes_strict_total); eassumption);
+    try (eapply (j_field_sound _ cert_st); eassumption);
+    try (eapply (j_field_sound _ racct_ledger_st); eassumption);
+    try (eapply (j_field_sound _ voter_ledger_st); eassumption);
+    try (eapply (j_field_sound _ prop_st); eassumption);
+    try (eapply j_pointers_sound; eassumption);
+    try (eapply j_locked_sound; eassumption).
+  (* uniqueness: spend pointers and the others are checked separately *)
+  intros r1 r2 Hr1 Hr2 Et Ei.
+  destruct (tag_code (r_tag r1) =? 0) eqn:E0.
+  - apply (j_unique_sound (filter (fun r => tag_code (r_tag r) =? 0) (b_redeemers b))); try assumption.
+    + apply filter_In. split; [exact Hr1 | exact E0].
+    + apply filter_In. split; [exact Hr2 | rewrite <- Et; exact E0].
+  - apply (j_unique_sound (filter (fun r => negb (tag_code (r_tag r) =? 0)) (b_redeemers b))); try assumption.
+    + apply filter_In. split; [exact Hr1 | rewrite E0; reflexivity].
+    + apply filter_In. split; [exact Hr2 | rewrite <- Et, E0; reflexivity].
+Qed.
+
+(* a known-finding verdict is only given inside the corresponding class *)
+Lemma verdict_of_known a s p k1 k3 k2 c : verdict_of a s p k1 k3 k2 = FailsKnown c ->
+  (c = 1 /\ k1 = true) \/ (c = 3 /\ k1 = false /\ k3 = true) \/ (c = 2 /\ k2 = true).
+Proof. unfold verdict_of. destruct a, s, p, k1, k3, k2; cbn; intros H; try discriminate; injection H as <-; auto. Qed.
+
+Theorem judge_known_narrow ops b c : judge ops b = FailsKnown c ->
+  (c = 1 /\ known_collateral_plutus ops = true) \/ (c = 3 /\ known_collateral_plutus ops = false /\ known_stale_spend ops = true)
+  \/ (c = 2 /\ known_prop_nonscript ops = true).
+Proof. unfold judge. cbv zeta. apply verdict_of_known. Qed.
